@@ -21,7 +21,7 @@ use vcore::condgen::{self, encode_int, IntEnc};
 use vcore::engine::{CaseResult, Ctx, Property, Source, SubCheck};
 use vcore::gentree::{self, BuildMode, Tid, Tree};
 use vcore::model::conditions as mc;
-use vcore::model::int::{classify_uint, UintClass};
+use vcore::model::int::{classify_uint, enc_u64, UintClass};
 use vcore::{vensure, vfail, Fnv, Src};
 
 #[derive(Clone, Debug)]
@@ -261,8 +261,6 @@ pub fn case_locks(bytes: &[u8], ctx: &mut Ctx) -> CaseResult {
             }
         }
     }
-    ctx.ran_dry(s.ran_dry());
-
     // ---- expected verdict: each original assertion on its own
     let created_here: Vec<bool> = spends
         .iter()
@@ -272,6 +270,44 @@ pub fn case_locks(bytes: &[u8], ctx: &mut Ctx) -> CaseResult {
                 .any(|p| p.coin_id == sp.parent && p.creates.iter().any(|(ph, am)| *ph == sp.ph && *am == sp.amount))
         })
         .collect();
+    // ---- bystanders: other conditions, all of them satisfied by construction, mixed
+    // in between the lock assertions (a real spend never consists of time locks
+    // only): ASSERT_EPHEMERAL on spends that are created in the bundle, the
+    // ASSERT_MY_* family with the spend's own values, announcements nobody
+    // asserts, REMARK, RESERVE_FEE 0, ASSERT_CONCURRENT_SPEND/PUZZLE of a spend of
+    // the bundle. They must not change the verdict.
+    // (position, opcode, args)
+    let mut bystanders: Vec<Vec<(usize, u8, Vec<Vec<u8>>)>> = vec![vec![]; spends.len()];
+    let mut n_bystanders = 0usize;
+    for i in 0..spends.len() {
+        let n = s.weighted(&[6, 3, 2, 1]);
+        for _ in 0..n {
+            let pos = s.below(spends[i].locks.len() + 1);
+            let other = s.below(spends.len());
+            let sp = &spends[i];
+            let (op, args): (u8, Vec<Vec<u8>>) = match s.below(10) {
+                0 | 1 if created_here[i] => (76, vec![]),
+                2 => (70, vec![sp.coin_id.to_vec()]),
+                3 => (73, vec![enc_u64(sp.amount)]),
+                4 => (71, vec![sp.parent.to_vec()]),
+                5 => (72, vec![sp.ph.to_vec()]),
+                6 => (60, vec![b"c03".to_vec()]),
+                7 => (52, vec![vec![]]),
+                8 => (64, vec![spends[other].coin_id.to_vec()]),
+                9 => (65, vec![spends[other].ph.to_vec()]),
+                _ => (1, vec![b"remark".to_vec()]),
+            };
+            bystanders[i].push((pos, op, args));
+            n_bystanders += 1;
+            if op == 76 {
+                ctx.label("bystander:assert-ephemeral-on-ephemeral-spend");
+            }
+        }
+    }
+    if n_bystanders > 0 {
+        ctx.label("has-bystander-conditions");
+    }
+    ctx.ran_dry(s.ran_dry());
     let mut all_hold = true;
     let mut any_invalid = false;
     let mut ephemeral_violation = false;
@@ -343,11 +379,25 @@ pub fn case_locks(bytes: &[u8], ctx: &mut Ctx) -> CaseResult {
             let b = t.int(u128::from(*am));
             conds.push(t.list(&[op, a, b]));
         }
+        let mut lock_nodes: Vec<Tid> = vec![];
         for l in &sp.locks {
             let op = t.atom(&[l.op as u8]);
             let a = t.atom(&l.atom);
-            conds.push(t.list(&[op, a]));
+            lock_nodes.push(t.list(&[op, a]));
         }
+        // bystanders at their positions among the locks (later ones first so that
+        // positions stay valid)
+        let mut by = bystanders[spend_nodes.len()].clone();
+        by.sort_by(|x, y| y.0.cmp(&x.0));
+        for (pos, op, args) in by {
+            let mut items = vec![t.atom(&[op])];
+            for a in &args {
+                items.push(t.atom(a));
+            }
+            let node = t.list(&items);
+            lock_nodes.insert(pos.min(lock_nodes.len()), node);
+        }
+        conds.extend(lock_nodes);
         let cl = t.list(&conds);
         let pa = t.atom(&sp.parent);
         let ph = t.atom(&sp.ph);
@@ -471,7 +521,7 @@ pub fn case_locks(bytes: &[u8], ctx: &mut Ctx) -> CaseResult {
 pub fn property() -> Property {
     Property {
         id: "C03",
-        rule: "a case is a chain state (prev tx height, timestamp, per spent coin confirmation height and timestamp; all kept below the type maxima) plus 1-4 spends each carrying 0-12 of the 10 lock/birth kinds whose arguments are drawn around the state (boundary ±1/±2/±10, 0, type max, negative, oversized, redundant-zero, duplicates and opposing pairs), optionally with an ephemeral parent/child pair; everything else in the bundle is trivially valid. Non-trivial = ≥2 lock assertions with ≥1 relative/birth assertion or an opposing absolute pair; distinct by (tree, chain state).",
+        rule: "a case is a chain state (prev tx height, timestamp, per spent coin confirmation height and timestamp; all kept below the type maxima) plus 1-4 spends each carrying 0-12 of the 10 lock/birth kinds whose arguments are drawn around the state (boundary ±1/±2/±10, 0, type max, negative, oversized, redundant-zero, duplicates and opposing pairs), optionally with an ephemeral parent/child pair; between the lock assertions 0-3 bystander conditions per spend that are satisfied by construction (ASSERT_EPHEMERAL on a spend created in the bundle, ASSERT_MY_* with the spend's own values, unasserted announcement, REMARK, RESERVE_FEE 0, ASSERT_CONCURRENT_SPEND/PUZZLE of a spend of the bundle). Non-trivial = ≥2 lock assertions with ≥1 relative/birth assertion or an opposing absolute pair; distinct by (tree, chain state).",
         assumptions: &[
             "chain heights/timestamps are generated strictly below u32::MAX / u64::MAX, so an 'at least' assertion whose argument exceeds the type can never hold (the statement's saturation rule is applied to the sums, not to out-of-type arguments)",
             "legacy wrapping mode (nowrap = false) is outside the statement and not checked",
@@ -483,7 +533,7 @@ pub fn property() -> Property {
             run: case_locks,
             inflight: false,
             min_nontrivial: 200_000,
-            required_labels: &["expected:pass", "expected:fail", "checked:pass", "has-ephemeral-pair", "value:negative", "value:oversized", "value:type-max"],
+            required_labels: &["expected:pass", "expected:fail", "checked:pass", "has-ephemeral-pair", "value:negative", "value:oversized", "value:type-max", "has-bystander-conditions", "bystander:assert-ephemeral-on-ephemeral-spend"],
         }],
         death_is_violation: false,
     }
